@@ -578,6 +578,7 @@ func comparatorRule(p *Prog, r *Report, rule string) {
 		}
 		seen[originOf(fn)] = true
 		var less *ssa.Function
+		var lessParams []*ssa.Parameter
 		forEachCall(fn, func(site ssa.CallInstruction) {
 			callee := site.Common().StaticCallee()
 			if callee == nil || fnPkgPath(callee) != "sort" || (callee.Name() != "Slice" && callee.Name() != "SliceStable") {
@@ -585,15 +586,32 @@ func comparatorRule(p *Prog, r *Report, rule string) {
 			}
 			if mc, ok := site.Common().Args[1].(*ssa.MakeClosure); ok {
 				less, _ = mc.Fn.(*ssa.Function)
+				// a method value ("sorter.less"): the closure is the synthetic bound-method wrapper, the comparator is
+				// the method it calls; the method's last two parameters are i and j
+				if less != nil && strings.HasSuffix(less.Name(), "$bound") {
+					var target *ssa.Function
+					forEachCallOwn(less, func(s2 ssa.CallInstruction) {
+						if c := s2.Common().StaticCallee(); c != nil {
+							target = c
+						}
+					})
+					less = target
+				}
 			}
 		})
 		base := "model.SortData"
-		if less == nil || len(less.Params) != 2 {
+		if less != nil && len(less.Params) == 3 && less.Signature.Recv() != nil {
+			// method comparator: analysed on (i, j)
+			lessParams = less.Params[1:]
+		} else if less != nil {
+			lessParams = less.Params
+		}
+		if less == nil || len(lessParams) != 2 {
 			r.Undecided(rule, base+"|less", p.Pos(fn.Pos()), "no sort.Slice call with a closure found")
 			continue
 		}
 		n++
-		ti, tj := forwardTaint(less.Params[0]), forwardTaint(less.Params[1])
+		ti, tj := forwardTaint(lessParams[0]), forwardTaint(lessParams[1])
 		// comparisons of an i-side value with a j-side value
 		type cmp struct {
 			bo      *ssa.BinOp
